@@ -524,6 +524,90 @@ theorem inFragment_subset {ordf : List World → List World} (ev : Event) (hne :
     rw [hww] at hi
     exact hw.wUnst i hi
 
+/-! ### fragment 2R: events that lines 2–3 reduce to fragment 2 -/
+
+/-- **Fragment 2R**: a well-formed event (ANY number of worlds) that violates effectiveness (line 2), or all of whose conjuncts are
+tautologies (line 3, then line 1), or that line 3 reduces to an event of fragment 2.  Decidable: `inFragment2RB`. -/
+def InFragment2R (ordf : List World → List World) (G : MG Name) (ev : Event) : Prop :=
+  GoodEv G ev ∧ (violatesEffectiveness ev = true ∨ removeTautologies ev = [] ∨ InFragment2 ordf G (removeTautologies ev))
+
+theorem goodEvB_sound (ev : Event) (h : goodEvB G ev = true) : GoodEv G ev := by
+  unfold goodEvB at h
+  simp only [Bool.and_eq_true, decide_eq_true_eq, List.all_eq_true, Bool.not_eq_eq_eq_not, Bool.not_true] at h
+  obtain ⟨hnd, hall⟩ := h
+  refine ⟨⟨hnd, fun q hq => (hall q hq).1.1.1.1⟩, ?_⟩
+  intro k hk
+  obtain ⟨v, hv⟩ := (mem_keys_iff _ k).1 hk
+  obtain ⟨⟨⟨⟨_, hs⟩, hiv⟩, hin⟩, hc⟩ := hall (k, v) hv
+  exact ⟨hs, hiv, hin, consistentB_sound _ hc⟩
+
+theorem inFragment2RB_sound {ordf : List World → List World} (ev : Event) (h : inFragment2RB ordf G ev = true) :
+    InFragment2R ordf G ev := by
+  unfold inFragment2RB at h
+  simp only [Bool.and_eq_true, Bool.or_eq_true, List.isEmpty_iff] at h
+  refine ⟨goodEvB_sound G ev h.1, ?_⟩
+  rcases h.2 with (h2 | h2) | h2
+  · exact Or.inl h2
+  · exact Or.inr (Or.inl h2)
+  · exact Or.inr (Or.inr (inFragment2B_sound G _ h2))
+
+/-- past lines 1–3 an event without tautologies goes straight to lines 4–9 -/
+theorem idStarFuel_reduced (ev : Event) (hviol : violatesEffectiveness ev = false) (hok : EvOK ev)
+    (hne : removeTautologies ev ≠ []) (f : Nat) :
+    idStarFuel ordf dordf G (f + 1) (removeTautologies ev) =
+      idStarLines4to9 ordf dordf G (idStarFuel ordf dordf G f) (removeTautologies ev) := by
+  have hemp : (removeTautologies ev).isEmpty = false := by
+    cases h : removeTautologies ev with
+    | nil => exact absurd h hne
+    | cons _ _ => rfl
+  simp only [idStarFuel]
+  unfold idStarBody
+  rw [hemp, violates_removeTautologies ev hviol, removeTautologies_idem, eqv_self _ (evOK_removeTautologies ev hok).nodup]
+  simp
+
+/-- **ID\* is sound on fragment 2R, under the reading of the property** (`cden2`), the outcome variables taking the values the
+event WITHOUT ITS TAUTOLOGIES gives them -/
+theorem idstar_sound_fragment2R (M : Model) (ν : BaseValues) (hν : ν.Distinct) (dom : Name → Nat) (hM : Compatible M G)
+    (hnorm : M.Normalised) (hdom : ∀ v ps us, M.f v ps us < dom v) (hG : G.WF) (hdl : ∀ e ∈ G.di, e.1 ≠ e.2)
+    (hbl : ∀ e ∈ G.bi, e.1 ≠ e.2) {ordf : List World → List World} (hord : PermOrder ordf) {dordf : List Var → List Var}
+    (hdo : PermDistrict dordf) (ev : Event) (hne : ev ≠ []) (hfr : InFragment2R ordf G ev) (e : Expr)
+    (h : idStar ordf dordf G ev = .ok e) :
+    cden2 M ν dom e (evVal ν (starOf (removeTautologies ev)) (worldB (removeTautologies ev))) (fun n => ν n false) =
+      probEvent M ν ev := by
+  obtain ⟨hev, hcases⟩ := hfr
+  have hwf : EventWF M ev := ⟨hev.ok.names,
+    fun p hp => (hM.perm.mem_iff).2 (hev.keys p.1 ((mem_keys_iff ev p.1).2 ⟨p.2, hp⟩)).inG,
+    fun p hp => (hev.keys p.1 ((mem_keys_iff ev p.1).2 ⟨p.2, hp⟩)).subs⟩
+  obtain ⟨b, hb⟩ := idStarFuelBound_ge G ev
+  unfold idStar at h
+  rw [hb] at h
+  cases hviol : violatesEffectiveness ev with
+  | true =>
+    rw [idstar_line2 ordf dordf G (b + 1) ev hne hviol] at h
+    simp only [Except.ok.injEq] at h
+    subst h
+    rw [idstar_line2_sound M ν hν ev hwf hviol]
+    simp [cden2]
+  | false =>
+    rcases idStarFuel_top_shape2 ordf dordf G ev hviol hev.ok hne b with ⟨h0, h1⟩ | ⟨f, hne', hrun⟩
+    · rw [h1] at h
+      simp only [Except.ok.injEq] at h
+      subst h
+      rw [← idstar_line3_sound M ν ev hwf, h0]
+      simp only [cden2, probEvent, List.map_nil]
+      exact (prob_nil M (fun pmf hp => (hnorm pmf hp).2)).symm
+    · rcases hcases with hc | hc | hc
+      · rw [hc] at hviol; cases hviol
+      · exact absurd hc hne'
+      · rw [hrun, ← idStarFuel_reduced ordf dordf G ev hviol hev.ok hne' f] at h
+        obtain ⟨hone, hcl⟩ := hc
+        have hviol' := violates_removeTautologies ev hviol
+        rw [← idstar_line3_sound M ν ev hwf]
+        rcases hcl with hcl | hcl
+        · rw [hcl] at hviol'; cases hviol'
+        · exact idStarFuel_sound_lit M ν dom hM (fun pmf hp => (hnorm pmf hp).2) hdom hG hdl hbl hord hdo _ _ _ hne' hone
+            (sKeys_starOf _) hviol' hcl _ e h
+
 /-! ### Zero -/
 
 /-- **on a single-world event Zero comes from line 2 and from nowhere else**: ID* returns Zero iff the event violates the axiom
